@@ -461,6 +461,50 @@ fn probe_middle_bad<T: Sc>(rep: &mut Report) {
     rep.count("middle_bad_probes", 1);
 }
 
+/// C17: a closure whose output has the wrong length only for SOME parameter values.  After any number
+/// of good evaluations the bad one is still reported as an error value, and the model recovers.
+fn probe_data_dependent_length<T: Sc>(rep: &mut Report) {
+    let x = DVector::from_fn(NX, |i, _| T::of64(i as f64));
+    let built = SeparableModelBuilder::<T>::new(&["a", "b"])
+        .function(&["a"], |x: &DVector<T>, a: T| if a.to64() > 100.0 { DVector::from_element(x.len() + 2, a) } else { x.map(|v| v + a) })
+        .partial_deriv("a", |x: &DVector<T>, a: T| if a.to64() < -100.0 { DVector::from_element(1, a) } else { x.map(|_| T::one()) })
+        .invariant_function(|x: &DVector<T>| x.clone())
+        .function(&["b", "a"], |x: &DVector<T>, b: T, _a: T| x.map(|v| v * b))
+        .partial_deriv("b", |x: &DVector<T>, _b: T, _a: T| x.clone())
+        .partial_deriv("a", |x: &DVector<T>, _b: T, _a: T| x.map(|_| T::zero()))
+        .independent_variable(x)
+        .initial_parameters(vec![T::one(), T::of64(2.0)])
+        .build();
+    let Ok(mut m) = built else {
+        rep.tool_error("data dependent length probe: cannot build".into());
+        return;
+    };
+    let det = |what: &str, got: String| json!({"ctx": "output length wrong only for some parameter values", "scalar": T::NAME, "what": what, "got": got});
+    let steps: [(f64, bool, bool); 7] = [(1.0, true, true), (3.0, true, true), (200.0, false, true), (5.0, true, true), (-200.0, true, false), (200.0, false, true), (7.0, true, true)];
+    for (round, (a, eval_ok, deriv_ok)) in steps.iter().enumerate() {
+        let set = catch_unwind(AssertUnwindSafe(|| m.set_params(DVector::from_vec(vec![T::of64(*a), T::of64(2.0)]))));
+        rep.check("C17", matches!(set, Ok(Ok(()))), 0.0, || det("set_params with a vector of the right length failed", format!("step {round}")));
+        // several evaluations in a row: the verdict does not depend on how often it was good before
+        for rep_i in 0..3 {
+            let r = catch_unwind(AssertUnwindSafe(|| m.eval().map(|p| (p.nrows(), p.ncols())).map_err(|e| err_kind(&e))));
+            let ok = match &r {
+                Ok(Ok((rows, cols))) => *eval_ok && *rows == NX && *cols == 3,
+                Ok(Err(k)) => !*eval_ok && *k == "UnexpectedFunctionOutput",
+                Err(_) => false,
+            };
+            rep.check("C17", ok, 0.0, || det("eval(): error value exactly when the output length is wrong, never a panic", format!("step {round} a={a} repeat {rep_i}: {r:?}")));
+            let r = catch_unwind(AssertUnwindSafe(|| m.eval_partial_deriv(0).map(|p| (p.nrows(), p.ncols())).map_err(|e| err_kind(&e))));
+            let ok = match &r {
+                Ok(Ok((rows, cols))) => *deriv_ok && *rows == NX && *cols == 3,
+                Ok(Err(k)) => !*deriv_ok && *k == "UnexpectedFunctionOutput",
+                Err(_) => false,
+            };
+            rep.check("C17", ok, 0.0, || det("eval_partial_deriv(0): error value exactly when the output length is wrong, never a panic", format!("step {round} a={a} repeat {rep_i}: {r:?}")));
+        }
+    }
+    rep.count("data_dependent_length_probes", 1);
+}
+
 pub fn run(path: &str) -> Report {
     let lines = crate::export::read_tagged(path, "VPME");
     let mut groups: BTreeMap<String, Vec<EdgeJ>> = BTreeMap::new();
@@ -507,6 +551,8 @@ pub fn run(path: &str) -> Report {
     probe_overlap::<f32>(&mut total);
     probe_middle_bad::<f64>(&mut total);
     probe_middle_bad::<f32>(&mut total);
+    probe_data_dependent_length::<f64>(&mut total);
+    probe_data_dependent_length::<f32>(&mut total);
     total.count("sequences", groups.len() as u64);
     total
 }
